@@ -484,7 +484,7 @@ impl Check for C18 {
         let ih = v.out.torrent.info_hash;
         let target = (v.plan.seed % 256) as u8;
         vd.class = hash_of(&(g.announce.clone(), ih.contains(&target), target, v.plan.own_id.clone()));
-        let mut ver = crate::oracles_wire::Verified::default();
+        let mut ver = crate::oracles_wire::Verified::start(v);
         for e in &v.out.entries {
             ver.on_event(v, &e.ev);
             if let Ev::Announce { url, .. } = &e.ev {
